@@ -31,6 +31,9 @@ def cases(tier, seed):
 
     wn, we = X.parse_bnet(WITNESS_BNET)
     out.append({"net": gen.net(wn, we, "witness"), "cls": "witness", "stop": ["spaces", [{}, {"D": 1, "L": 1}]], "skip_p": 0.0, "orders": 2, "rs": 12345})
+    # second shape of the same finding (found by the thorough tier, seed 1): the pruners are regular expanded nodes
+    wn, we = X.parse_bnet(WITNESS2_BNET)
+    out.append({"net": gen.net(wn, we, "witness"), "cls": "witness", "stop": ["pre_min_skip", 4], "skip_p": 0.6, "orders": 6, "rs": 804108667})
     for n in gen.corpus():
         if len(n["names"]) >= 6:
             for k in range(6):
@@ -59,6 +62,18 @@ L7, (F3t & D)
 lz4, (((!lz4 & !Xr) | Dzar) & ((D & z) & F3t))
 Xr, (((!lz4 & !Xr) | Dzar) & ((D & z) & F3t))
 Dzar, ((lz4 & Xr) & ((D & z) & F3t))
+"""
+
+
+WITNESS2_BNET = """ntz, (ntz | Rcq)
+Gq9, ((Gq9 & ntz) | Rcq)
+U, ((U & Gq9) | Rcq)
+Rcq, (Rcq & U)
+w78q, (w78q | !ntz)
+Ut, Ut
+Klh, (((!Klh & !Dem) | Pg5) & !Ut)
+Dem, (((!Klh & !Dem) | Pg5) & !Ut)
+Pg5, ((Klh & Dem) & !Ut)
 """
 
 
@@ -246,7 +261,31 @@ def run_case(case):
                             if ref.attractor_in_space(a, ref.sp(full)):
                                 cover.append((h, expl))
                     if cover:
-                        via = "skip-pruning" if any(sd.node_data(n)["skipped"] for _, expl in cover for n in expl) else "pruned-by-regular-nodes-only"
+                        # the open finding's mechanism: the avoided intersection comes from a node whose empty result
+                        # only says "no attractor outside my children" — a skip node (possibly emptied by pruning
+                        # itself), or a regular expanded node all of whose attractors do lie inside its children.
+                        # A regular node that is empty although the reference has an attractor of its space outside
+                        # every child is a different defect (its own search is wrong) and keeps its own key.
+                        def legit_empty(n):
+                            d = sd.node_data(n)
+                            if d["skipped"]:
+                                return "skip"
+                            if not d["expanded"]:
+                                return None
+                            nsp2 = ref.sp(d["space"])
+                            kids = [ref.sp(sd.node_data(c)["space"]) for c in sd.dag.successors(n)]
+                            for b in atts:
+                                if ref.attractor_in_space(b, nsp2) and not any(ref.attractor_in_space(b, k2) for k2 in kids):
+                                    return None
+                            return "regular"
+
+                        kinds = {legit_empty(n) for _, expl in cover for n in expl}
+                        if "skip" in kinds:
+                            via = "skip-pruning"
+                        elif "regular" in kinds:
+                            via = "skip-pruning:pruners-are-regular-nodes"
+                        else:
+                            via = "pruned-by-wrongly-empty-node"
                     res.v(
                         f"attractor-lost:{via}",
                         f"attractor {ref.states(a)[:6]} ({a.bit_count()} states) is reported by no node; nodes containing it: {holders}, pruned skip nodes: {sorted(pruned)}",
